@@ -3,8 +3,12 @@
 -/
 import MayVerif.Core.Trace
 import MayVerif.Model.Sync.MutexReplay
+import MayVerif.Model.Sync.SemReplay
+import MayVerif.Model.Sync.SyncFlagReplay
 open MayVerif
 
 def machines : List (String × Machine) := [
-  ("mutex", MayVerif.Mutex.machine)
+  ("mutex", MayVerif.Mutex.machine),
+  ("sem", MayVerif.Sem.machine),
+  ("syncflag", MayVerif.SyncFlag.machine)
 ]
